@@ -165,7 +165,7 @@ def main():
                                      "execution of the real sources, sidecar contracts, VCs discharged by z3/cvc5; "
                                      "native replay harness under /venv/bin/python")],
         checks=checks,
-        notes="Exit codes of a check: 0 held, 1 VIOLATION, 3 checker error. See DESIGN.md.",
+        notes="Exit codes of a check: 0 held, 1 VIOLATION, 3 checker error (never a verdict). Known findings and the list of repaired defects: /verif/known_findings.json (never written at run time). Seeded property-breaking changes and what reports each: /verif/seeded/<id>/ (patch.diff, demo.py, meta.json, caught.json). See DESIGN.md, section STATUS.",
         not_applicable=[dict(property_id=p, reason=NOT_YET) for p in props if p not in CLAIMED],
     )
     json.dump(m, open(os.path.join(VERIF, 'MANIFEST.json'), 'w'), indent=1)
